@@ -291,13 +291,303 @@ class WedgeListSgBatch(Contract):
         return r.replay_kind("wedge_sg")
 
 
-CONTRACTS = [GctfRead, Ctffind4Read, WedgeListSg, WedgeListSgBatch]
+# ---------------------------------------------------------------------------------------------------------------------------------
+# Mdoc image table operations (labels != positions after sorting)
+from vfw.models import ptable, kernels
+
+
+class _ImgTable(ptable.PTable):
+    """Mdoc.imgs: a position-function table whose index labels L(i) are pairwise different but need not equal the positions (after sort_by_tilt)"""
+
+    def __init__(self, names, prefix, int_cols=()):
+        ptable.PTable.__init__(self, names, prefix, int_cols=int_cols)
+        self.L = z3.Function(f"{prefix}label", z3.IntSort(), z3.IntSort())
+        a, b = z3.Ints("a!lab b!lab")
+        n = sym.to_z3(self.n)
+        ctx().assume(z3.ForAll([a, b], z3.Implies(z3.And(a >= 0, a < n, b >= 0, b < n, a != b), self.L(a) != self.L(b))))
+
+    def __getitem__(self, c):
+        if isinstance(c, ptable.PMask):
+            return _ImgView(self, c)
+        return ptable.PTable.__getitem__(self, c)
+
+    @property
+    def index(self):
+        return _ImgIndex(self, None)
+
+    @property
+    def loc(self):
+        return _ImgLoc(self)
+
+    @property
+    def iloc(self):
+        return _ImgLoc(self, positional=True)
+
+    def sort_values(self, by=None, **k):
+        """assumed pandas contract: a new table holding the same rows (cells and index labels travel together) in ascending order of column `by`"""
+        if not isinstance(by, str) or by not in self.cols or k.get("ascending", True) is not True or k.get("inplace"):
+            raise Unsupported("sort_values form")
+        cx = ctx()
+        u = next(cx.counter)
+        pi = z3.Function(f"sorted_from!{u}", z3.IntSort(), z3.IntSort())
+        inv = z3.Function(f"sorted_to!{u}", z3.IntSort(), z3.IntSort())
+        n = sym.to_z3(self.n)
+        a, b = z3.Ints(f"a!{u} b!{u}")
+        key = self.cols[by]
+        cx.axiom("DataFrame.sort_values(by=col): a permutation of the rows, ascending in col",
+                 z3.And(z3.ForAll([a], z3.Implies(z3.And(a >= 0, a < n), z3.And(pi(a) >= 0, pi(a) < n, inv(pi(a)) == a, inv(a) >= 0, inv(a) < n, pi(inv(a)) == a))),
+                        z3.ForAll([a, b], z3.Implies(z3.And(a >= 0, a <= b, b < n), key(pi(a)) <= key(pi(b))))))
+        new = _ImgTable.__new__(_ImgTable)
+        new.__dict__.update(self.__dict__)
+        new.cols = {c: (lambda i, g=g: g(pi(i))) for c, g in self.cols.items()}
+        new.initial = dict(new.cols)
+        oldL = self.L
+        new.L = lambda i: oldL(pi(i))
+        new.sorted_from, new.sorted_by, new.source = pi, by, self
+        new._first, new.counts = {}, []
+        return new
+
+    def __setitem__(self, c, v):
+        if isinstance(v, range) or (isinstance(v, tuple) and v and v[0] == "range"):
+            if isinstance(v, range):
+                raise Unsupported("concrete range assigned to a symbolic-length table")
+            self.cols[c] = (lambda i: z3.ToReal(i))
+            self.range_assigned = getattr(self, "range_assigned", []) + [(c, v[1])]
+            return
+        return ptable.PTable.__setitem__(self, c, v)
+
+    @property
+    def columns(self):
+        t = self
+
+        class Cols:
+            def get_loc(self, name):
+                return ("column-position-of", name)
+        return Cols()
+
+
+class _ImgView:
+    """table[mask]: the masked rows in order; only its index is used"""
+
+    def __init__(self, t, mask):
+        self.t, self.mask = t, mask
+
+    @property
+    def index(self):
+        return _ImgIndex(self.t, self.mask)
+
+
+class _ImgIndex:
+    """labels of the (masked) rows in order: [k] is the label of the k-th such row, sigma(k) its position (assumed pandas / numpy contract:
+    boolean selection keeps the order -- strictly increasing enumeration sigma of the masked positions, onto them)"""
+
+    def __init__(self, t, mask):
+        self.t, self.mask = t, mask
+        n = sym.to_z3(t.n)
+        cx = ctx()
+        u = next(cx.counter)
+        self.count = z3.Int(f"n_sel!{u}")
+        self.sigma = z3.Function(f"sel_pos!{u}", z3.IntSort(), z3.IntSort())
+        self.rank = z3.Function(f"sel_rank!{u}", z3.IntSort(), z3.IntSort())
+        m = mask.f if mask is not None else (lambda i: z3.BoolVal(True))
+        self.m = m
+        k, j, i = z3.Ints(f"k!{u} j!{u} i!{u}")
+        S, Rk = self.sigma, self.rank
+        cx.axiom("boolean selection keeps the masked rows in order (pandas contract): sigma enumerates the masked positions increasingly, rank is its inverse",
+                 z3.And(self.count >= 0, self.count <= n,
+                        z3.ForAll([k], z3.Implies(z3.And(k >= 0, k < self.count), z3.And(S(k) >= 0, S(k) < n, m(S(k)), Rk(S(k)) == k))),
+                        z3.ForAll([k, j], z3.Implies(z3.And(k >= 0, k < j, j < self.count), S(k) < S(j))),
+                        z3.ForAll([i], z3.Implies(z3.And(i >= 0, i < n, m(i)), z3.And(Rk(i) >= 0, Rk(i) < self.count, S(Rk(i)) == i)))))
+
+    def __getitem__(self, k):
+        kt = sym.to_z3(k)
+        ctx().oblige("safe.index-in-range", z3.And(kt >= 0, kt < self.count), kind="safe", detail="index[k] of the (kept) images")
+        return _ImgLabel(self.t, self.t.L(self.sigma(kt)))
+
+
+class _ImgLabel:
+    def __init__(self, t, term):
+        self.t, self.term = t, term
+
+
+class _ImgLoc:
+    def __init__(self, t, positional=False):
+        self.t, self.positional = t, positional
+
+    def __setitem__(self, k, v):
+        if self.positional and isinstance(k, tuple) and len(k) == 2 and isinstance(k[1], tuple) and k[1][0] == "column-position-of":
+            k = (k[0], k[1][1])
+        if not (isinstance(k, tuple) and len(k) == 2 and isinstance(k[0], _ImgLabel) and isinstance(k[1], str)):
+            raise Unsupported("imgs.loc assignment form")
+        lab, col = k
+        t = self.t
+        val = ptable._scalar(v)
+        if self.positional:
+            # .iloc[x, col]: x is used as a POSITION (here: the number that is really an index label); out of range raises IndexError
+            ctx().oblige("safe.index-in-range", z3.And(lab.term >= 0, lab.term < sym.to_z3(t.n)), kind="safe", detail="positional row access")
+            mask = lambda i, lt=lab.term: i == lt
+        else:
+            mask = lambda i, lt=lab.term: t.L(i) == lt
+        rec = getattr(t, "recording", None)
+        if rec is not None:
+            rec.append((col, mask, val))
+            return
+        t.cols[col] = (lambda i, old=t.cols[col], mask=mask, val=val: z3.If(mask(i), val, old(i)))
+
+
+class _Requested(frames._Generic):
+    """the list of image numbers to remove: iterating it binds an arbitrary requested number (Req(idx) holds)"""
+    REQ = z3.Function("requested", z3.IntSort(), z3.BoolSort())
+
+    def __init__(self, table, bound):
+        self.table, self.bound = table, bound
+
+    def __generic_for__(self, interp, st, env):
+        cx = ctx()
+        idx = cx.fresh("req_index", "Int")
+        t = self.table
+        t.recording = []
+        n_pc = len(cx.pc)
+        self.dom = lambda x: z3.And(_Requested.REQ(x), x >= 0, x < self.bound())
+        cx.pc.append((self.dom(idx), st.lineno, "domain"))
+        cx._solver = None
+        try:
+            env.vars[st.target.id] = SV(idx)
+            interp.block(st.body, env)
+        finally:
+            del cx.pc[n_pc:]
+            cx._solver = None
+        rec, t.recording = t.recording, None
+        j = z3.Int(f"j!{next(cx.counter)}")
+        for col, mask, val in rec:
+            # stores of ALL iterations: a cell changes iff some requested number's store hits it
+            t.cols[col] = (lambda i, old=t.cols[col], mask=mask, val=val, idx=idx, j=j: z3.If(z3.Exists([j], z3.And(self.dom(j), z3.substitute(mask(i), (idx, j)))), val, old(i)))
+        self.loop_var = idx
+
+
+class MdocRemoveImages(Contract):
+    """Mdoc.remove_images(indices, kept_only): exactly the images whose number among the kept (or all) images, counted in the current order, is
+    requested get Removed = True; no other cell changes -- also when the index labels differ from the positions (after sort_by_tilt)"""
+    prop = "C17"
+    module = "mdoc"
+    qual = "Mdoc.remove_images"
+    configs = [{"kept_only": True}, {"kept_only": False}]
+
+    def cfg_name(self, cfg):
+        return f"kept_only={cfg['kept_only']}"
+
+    def bind(self, cx, cfg):
+        from vfw.models import misc
+        it = Interp("mdoc", common.base_globals())
+        cols = ["TiltAngle", "ZValue", "Removed", "ExposureDose"]
+        T = _ImgTable(cols, "img_", int_cols=("ZValue", "Removed"))
+        i = z3.Int("i!rm")
+        cx.assume(z3.ForAll([i], z3.Or(T.fn["Removed"](i) == 0, T.fn["Removed"](i) == 1)))
+        me = misc.SelfObj(it, "Mdoc", imgs=T)
+        holder = {}
+
+        def bound():
+            return holder["index"].count
+        req = _Requested(T, bound)
+        # the bound of the requested numbers is the number of kept (or all) images: requires 0 <= number < that count
+        orig_index = _ImgIndex
+
+        def thunk():
+            made = []
+            real_init = _ImgIndex.__init__
+
+            def spy(self_, t, mask):
+                real_init(self_, t, mask)
+                made.append(self_)
+                holder["index"] = self_
+            _ImgIndex.__init__ = spy
+            try:
+                r = it.function("Mdoc.remove_images").bind(me)(req, kept_only=cfg["kept_only"])
+            finally:
+                _ImgIndex.__init__ = real_init
+            return {"ret": r, "indexes": made}
+        return thunk, {"T": T, "req": req, "cols": cols}
+
+    def post(self, cx, cfg, inp, res):
+        T, cols = inp["T"], inp["cols"]
+        n = sym.to_z3(T.n)
+        ok = len(res["indexes"]) == 1
+        cl = [("one_enumeration_of_the_images_taken_before_the_loop", z3.BoolVal(bool(ok)))]
+        if not ok:
+            return cl
+        ix = res["indexes"][0]
+        i, j = z3.Ints("i!pm j!pm")
+        kept0 = lambda x: T.fn["Removed"](x) == 0
+        sel = (lambda x: kept0(x)) if cfg["kept_only"] else (lambda x: z3.BoolVal(True))
+        cl.append(("numbers_refer_to_the_kept_images" if cfg["kept_only"] else "numbers_refer_to_all_images",
+                   z3.ForAll([i], z3.Implies(z3.And(i >= 0, i < n), ix.m(i) == sel(i))), ()))
+        # spec: image at position i is flagged iff it is selected and its number among the selected images (in the current order) is requested
+        flagged = lambda x: z3.And(sel(x), _Requested.REQ(ix.rank(x)))
+        cl.append(("exactly_the_requested_images_are_flagged_removed", z3.ForAll([i], z3.Implies(z3.And(i >= 0, i < n), sym.real(T.cols["Removed"](i)) == z3.If(flagged(i), 1, sym.real(T.fn["Removed"](i))))), ()))
+        cl.append(("no_other_cell_changes", z3.BoolVal(all(not T.changed(c) for c in cols if c != "Removed"))))
+        return cl
+
+    def replay(self, clause, model, cfg):
+        from rtc import c17 as r
+        return r.replay_kind("mdoc_ops")
+
+
+class MdocSortByTilt(Contract):
+    """Mdoc.sort_by_tilt: the image table is replaced by the same rows (with their index labels) in ascending tilt order; with reset_z_value the
+    ZValue column becomes 0..n-1 in the new order; nothing else changes"""
+    prop = "C17"
+    module = "mdoc"
+    qual = "Mdoc.sort_by_tilt"
+    configs = [{"reset": False}, {"reset": True}]
+
+    def cfg_name(self, cfg):
+        return f"reset_z_value={cfg['reset']}"
+
+    def bind(self, cx, cfg):
+        from vfw.models import misc
+        g = common.base_globals()
+        g["range"] = lambda *a: ("range", a[0]) if len(a) == 1 and isinstance(a[0], SV) else range(*a)
+        it = Interp("mdoc", g)
+        cols = ["TiltAngle", "ZValue", "Removed", "ExposureDose"]
+        T = _ImgTable(cols, "img_", int_cols=("ZValue", "Removed"))
+        me = misc.SelfObj(it, "Mdoc", imgs=T)
+        return (lambda: it.function("Mdoc.sort_by_tilt").bind(me)(reset_z_value=cfg["reset"])), {"T": T, "me": me, "cols": cols}
+
+    def post(self, cx, cfg, inp, res):
+        T, out, cols = inp["T"], inp["me"].imgs, inp["cols"]
+        ok = isinstance(out, _ImgTable) and getattr(out, "source", None) is T and out.sorted_by == "TiltAngle"
+        cl = [("table_replaced_by_its_rows_sorted_by_tilt_angle", z3.BoolVal(bool(ok)))]
+        if not ok:
+            return cl
+        n = sym.to_z3(T.n)
+        pi = out.sorted_from
+        a, b, i = z3.Ints("a!st b!st i!st")
+        same = [c for c in cols if not (cfg["reset"] and c == "ZValue")]
+        cl += [("tilt_angles_ascending", z3.ForAll([a, b], z3.Implies(z3.And(a >= 0, a <= b, b < n), out.cols["TiltAngle"](a) <= out.cols["TiltAngle"](b))), ()),
+               ("rows_and_their_labels_only_reordered", z3.ForAll([i], z3.Implies(z3.And(i >= 0, i < n), z3.And(out.L(i) == T.L(pi(i)), *[sym.real(out.cols[c](i)) == sym.real(T.cols[c](pi(i))) for c in same]))), ()),
+               ("original_table_object_untouched", z3.BoolVal(all(not T.changed(c) for c in cols)))]
+        if cfg["reset"]:
+            cl.append(("z_values_renumbered_in_the_new_order", z3.ForAll([i], z3.Implies(z3.And(i >= 0, i < n), sym.real(out.cols["ZValue"](i)) == z3.ToReal(i))), ()))
+            cl.append(("z_values_cover_all_images", z3.BoolVal(getattr(out, "range_assigned", None) is not None and len(out.range_assigned) == 1 and out.range_assigned[0][0] == "ZValue"
+                                                             and z3.is_true(z3.simplify(sym.to_z3(out.range_assigned[0][1]) == n)))))
+        return cl
+
+    def replay(self, clause, model, cfg):
+        from rtc import c17 as r
+        return r.replay_kind("mdoc_ops")
+
+
+CONTRACTS = [GctfRead, Ctffind4Read, WedgeListSg, WedgeListSgBatch, MdocRemoveImages, MdocSortByTilt]
 LEVEL = "other"
 EXPLANATION = ("Deductive part: the defocus loaders' arithmetic on the generic row (Angstrom -> micrometre, mean = (U+V)/2, copied astigmatism / phase shift, 0 when the phase column is absent) and the row pairing of "
-               "create_wedge_list_sg (i-th tilt with i-th defocus and exposure, per-tomogram constants, one row per tilt, length mismatch rejected). Bounded part: mdoc text round trip / sort / remove / write, every "
-               "file-reading path, the batch wedge lists and the EM wedge list, with files written by an independent writer.")
+               "create_wedge_list_sg (i-th tilt with i-th defocus and exposure, per-tomogram constants, one row per tilt, length mismatch rejected); for an arbitrary tomogram of create_wedge_list_sg_batch's loop the call of "
+               "create_wedge_list_sg with that tomogram's number, dimensions and z-shift (looked up by tomogram number), files and constants; Mdoc.remove_images (exactly the requested kept / all images, counted in the "
+               "current order, get Removed = True, also when index labels differ from positions after sorting; no other cell changes) and Mdoc.sort_by_tilt (same rows with their labels in ascending tilt order, optional "
+               "renumbering of ZValue). Bounded part: mdoc text round trip / write, every file-reading path, end-to-end batch wedge lists and the EM wedge list, with files written by an independent writer.")
 ASSUMPTIONS = ["Starfile.read / pandas.read_csv return the table in the file (bounded stand-in reads real files); ioutils loaders return array inputs unchanged",
-               "string parsing and formatting (mdoc text, file name patterns) are outside deductive reach"]
+               "string parsing and formatting (mdoc text, file name patterns) are outside deductive reach",
+               "pandas contracts assumed for the Mdoc table: boolean selection keeps the masked rows in order, .loc[label, col] = v writes the row with that label, .iloc[pos, col] the row at that position, "
+               "sort_values(by=col) is a permutation of the rows (labels travel with them) ascending in col; index labels are pairwise different"]
 
 
 def run(ck):
